@@ -63,6 +63,11 @@ class ApCorr(Corr):
             thresholds = [A.threshold_for(rng, mode) for _ in targets]
             n_gt_objs = sum(1 for r in scene["results"] if r["gt"] is not None)
             num_gt = rng.choice([n_gt_objs, n_gt_objs + rng.randint(0, 3), rng.randint(0, 3), 0])
+            if i % 9 == 4 and mode in ("CENTERDISTANCE", "IOU2D"):
+                # 2D objects with an ROI (the two matching modes MetricsScore uses for 2D tasks); APH is not defined for 2D objects
+                # (Map skips it: is_detection_2d).  Ap with a mode that does not exist for the object type is not a supported call
+                # (its _calculate_average_sd dereferences get_matching(mode) unconditionally).
+                scene = dict(scene, dim="2d")
             out.append({"stream": "random", "scene": scene, "mode": mode, "targets": targets, "thresholds": thresholds, "num_gt": num_gt})
         return out
 
@@ -75,6 +80,8 @@ class ApCorr(Corr):
         tl = [A.label_enum(x) for x in case["targets"]]
         obs = {}
         for nm, tpm in (("ap", TPMetricsAp()), ("aph", TPMetricsAph())):
+            if nm == "aph" and case["scene"].get("dim") == "2d":
+                continue
             fs = A.facts(case["scene"], results, case["mode"], case["targets"], case["thresholds"], tpm)
             flat = list(results)
             ap = Ap(tp_metrics=tpm, object_results=flat, num_ground_truth=case["num_gt"], target_labels=tl,
@@ -92,6 +99,8 @@ class ApCorr(Corr):
     def coq_term(self, case, obs):
         parts = []
         for nm in ("ap", "aph"):
+            if nm not in obs:
+                continue
             o = obs[nm]
             rs = llit([A.res_lit(f) for f in o["facts"]])
             parts.append(f"check_ap {A.mode_lit(case['mode'])} {case['num_gt']} {rs} {llit([qlit(x) for x in o['tp_list']])} "
@@ -108,6 +117,8 @@ class ApCorr(Corr):
         n = case["num_gt"]
         vals = {}
         for nm in ("ap", "aph"):
+            if nm not in obs:
+                continue
             o = obs[nm]
             ref, tps, n_tp = A.ref_ap(o["facts"], mx, n, unit_weight=(nm == "ap"))
             if (ref is None) != (o["ap"] is None):
@@ -137,11 +148,12 @@ class ApCorr(Corr):
 
     def describe(self, case, obs):
         return {"case": {k: v for k, v in case.items() if k != "scene"}, "n_results": len(case["scene"]["results"]),
-                "observed": {"ap": obs["ap"]["ap"], "aph": obs["aph"]["ap"], "tp_list": obs["ap"]["tp_list"][:8]}}
+                "observed": {"ap": obs["ap"]["ap"], "aph": obs.get("aph", {}).get("ap"), "tp_list": obs["ap"]["tp_list"][:8]}}
 
     def distribution(self, cases, obs):
         d = {"streams": {}, "modes": {}, "sizes": {"0": 0, "1-4": 0, "5-14": 0, "15+": 0}, "ap_undefined": 0, "ap_zero": 0, "ap_one": 0,
-             "with_conf_ties": 0, "with_ign": 0, "with_fp_label_gt": 0, "score_equals_threshold": 0}
+             "with_conf_ties": 0, "with_ign": 0, "with_fp_label_gt": 0, "score_equals_threshold": 0, "objects_2d": 0,
+             "results_without_matching_method": 0}
         for c, o in zip(cases, obs):
             d["streams"][c["stream"]] = d["streams"].get(c["stream"], 0) + 1
             d["modes"][c["mode"]] = d["modes"].get(c["mode"], 0) + 1
@@ -154,6 +166,8 @@ class ApCorr(Corr):
             confs = [f["conf"] for f in o["ap"]["facts"]]
             d["with_conf_ties"] += len(set(confs)) < len(confs)
             d["with_ign"] += any(f["thr"] is None for f in o["ap"]["facts"])
+            d["objects_2d"] += c["scene"].get("dim") == "2d"
+            d["results_without_matching_method"] += sum(1 for f in o["ap"]["facts"] if f["matching"] is None)
             d["with_fp_label_gt"] += any(f["gt_fp"] for f in o["ap"]["facts"])
             d["score_equals_threshold"] += any(f["thr"] is not None and f["matching"] and f["matching"]["value"] == f["thr"] for f in o["ap"]["facts"])
         return d
